@@ -66,6 +66,9 @@ def finite_difference_obligation(vtypes, m=2):
                 raise ObFail("Jacobian %d has shape %s, expected (%d, %d)" % (k, getattr(Jk, "shape", None), m, c))
             for d in range(c):
                 col = [Jk.data[r][d] for r in range(m)]
+                if any(not isinstance(x, Poly) for x in col):
+                    raise ObFail("column %d of the Jacobian of vertex %d is divided by a value that depends on the pose: the step is not "
+                                 "the documented constant 1e-6" % (d, k))
                 # identify epsilon from the column: col = (E_pert - E0) / eps  with E_pert the error at exactly one perturbed configuration
                 match = None
                 for key, vec in E.seen.items():
